@@ -236,6 +236,13 @@ func c05Gen(r *rand.Rand, tier string, mode string) []Case {
 	out = append(out, Case{"ptx # value=777 gas=2000000 script=S:0:3,G:500000000000000", "ptx # value=1000 gas=2000000 script=S:1:2,P:5,C rewards=900000000000000000000000",
 		"ptx # value=0 gas=2000000 script=D:400000000000000,S:2:1", "ptx # value=300 gas=2000000 script=P:7,W,S:0:1 rewards=500000000000000000000000",
 		"ptx # value=250 gas=2000000 script=S:0:2,D:3000,C,P:9 rewards=700000000000000000000000", "ptx # value=0 gas=2000000 script=C,[,S:1:5,C,]R,P:1 rewards=600000000000000000000000"})
+	// fixed case: a payment to a module account, then a precompile call in the same frame — the flush at the precompile's
+	// entry mints for the module account and is refused; nothing of that may stay
+	out = append(out, Case{"psup # value=989 gas=2000000 script=S:1:4,[,z:fee_collector:973,D:94490,G:5533,]", "psup # value=0 gas=2000000 script=z:distribution:41,d:1000,S:0:1",
+		"psup # value=10 gas=2000000 script=[,z:bonded_tokens_pool:5,C,]R,P:1"})
+	// fixed case: value sent to module accounts from inside the EVM, by the contract and by the origin directly
+	out = append(out, Case{"ptx # value=900 gas=2000000 script=S:0:4,z:fee_collector:300,P:5", "ptx # value=0 gas=2000000 script=z:distribution:7",
+		"dtx # m=paymodule amt=1000000 gas=100000", "ptx # value=50 gas=2000000 script=[,z:bonded_tokens_pool:20,],S:1:1"})
 	// fixed case: the origin calls the precompiles directly, with gas limits sweeping through the range in which the call
 	// runs out of gas somewhere inside the Cosmos message
 	{
@@ -271,7 +278,12 @@ func c05Dtx(f []string, prop string, line Case, fails *[]Failure, tags *[]string
 	dpc, _ := distrpc.NewPrecompile(distrkeeper.Keeper{}, stakingkeeper.Keeper{}, authzkeeper.Keeper{})
 	var to common.Address
 	var in []byte
+	var val0 *big.Int
 	switch kv["m"] {
+	case "paymodule":
+		// a plain value transfer to a module account: it cannot be credited, the transaction must not go through
+		to = common.BytesToAddress(authtypes.NewModuleAddress(authtypes.FeeCollectorName).Bytes())
+		val0 = mustBig(kv["amt"])
 	case "undelegate":
 		to = common.HexToAddress(stakingpc.PrecompileAddress)
 		in, _ = sabi.Pack("undelegate", E.Addr, val, mustBig(kv["amt"]))
@@ -293,8 +305,12 @@ func c05Dtx(f []string, prop string, line Case, fails *[]Failure, tags *[]string
 	}
 	pre := snap()
 	price := big.NewInt(2_000_000_000)
-	res, _, _ := c07Send(puppetOrigin, evmtypes.EvmTxArgs{To: &to, Input: in, GasLimit: uint64(vmIdx(kv["gas"])), GasPrice: price})
+	sup0 := app.BankKeeper.GetSupply(nw.GetContext(), nw.GetDenom()).Amount
+	res, _, _ := c07Send(puppetOrigin, evmtypes.EvmTxArgs{To: &to, Input: in, Amount: val0, GasLimit: uint64(vmIdx(kv["gas"])), GasPrice: price})
 	post := snap()
+	if sup1 := app.BankKeeper.GetSupply(nw.GetContext(), nw.GetDenom()).Amount; !sup1.Equal(sup0) {
+		*fails = append(*fails, Failure{Signature: prop + ":tx:direct-call-changed-the-supply", What: fmt.Sprintf("a direct call (%s) by the origin changed the total supply from %s to %s (code %d)", kv["m"], sup0, sup1, res.Code), Case: line})
+	}
 	failed := res.Code != 0
 	if res.Code == 0 {
 		if txr, e := evmtypes.DecodeTxResponse(res.Data); e == nil {
@@ -353,7 +369,13 @@ func puppetGenLine(r *rand.Rand, mode string) string {
 			case x < 4:
 				toks = append(toks, "L")
 			case x < 6:
-				toks = append(toks, fmt.Sprintf("P:%d", 1+r.Intn(1000)))
+				if r.Intn(6) == 0 {
+					// the contract tries to pay a module account (failure ignored): the credit is refused when the
+					// transaction's state is committed, so the transaction must fail as a whole
+					toks = append(toks, fmt.Sprintf("z:%s:%d", pick(r, []string{"fee_collector", "distribution", "bonded_tokens_pool"}), 1+r.Intn(1000)))
+				} else {
+					toks = append(toks, fmt.Sprintf("P:%d", 1+r.Intn(1000)))
+				}
 			case x < 7:
 				toks = append(toks, fmt.Sprintf("D:%d", 1000+r.Intn(100000)))
 			case x < 8:
@@ -379,6 +401,24 @@ func puppetGenLine(r *rand.Rand, mode string) string {
 		}
 	}
 	gen(0, false)
+	// a payment to a module account leaves an uncreditable balance in the EVM's cache: every later flush in the same
+	// transaction (each stateful precompile call begins with one) then fails, which the reading does not model — such
+	// payments are generated only in scripts without precompile calls (where the transaction fails as a whole at the end)
+	hasPC := false
+	for _, t := range toks {
+		if strings.HasPrefix(t, "D:") || strings.HasPrefix(t, "G:") || t == "C" || t == "W" {
+			hasPC = true
+		}
+	}
+	if hasPC {
+		var keep []string
+		for _, t := range toks {
+			if !strings.HasPrefix(t, "z:") {
+				keep = append(keep, t)
+			}
+		}
+		toks = keep
+	}
 	value := 0
 	if r.Intn(2) == 0 {
 		value = 1 + r.Intn(5000)
@@ -743,6 +783,23 @@ func c05Exec(c Case, prop string) (outs []string, fails []Failure, tags []string
 				var line string
 				out, line = c05Ptx(f, prop, c[i:i+1], &fails, &tags)
 				c[i] = line
+			case "psup":
+				// a puppet transaction outside what the reading of scripts covers (a payment to a module account followed
+				// by a precompile call in the same frame: the flush at the precompile's entry fails half way): judged on the
+				// total supply alone
+				out = "skip"
+				puppetSetup()
+				{
+					nw, _ := fixture()
+					kv := vmKV(f)
+					ref := puppetRef{dE: new(big.Int), dP: new(big.Int), dX: new(big.Int), bondE: new(big.Int), bondP: new(big.Int)}
+					sc := puppetCompile(strings.Split(kv["script"], ","), &ref, nw.GetValidators()[0].OperatorAddress)
+					o := puppetRun(mustBig(kv["value"]), sc.bytes, uint64(vmIdx(kv["gas"])))
+					tags = append(tags, "supply-only-transaction")
+					if o.dSupply.Sign() != 0 {
+						fails = append(fails, Failure{Signature: prop + ":tx:supply-changed", What: "the total supply changed by " + o.dSupply.String() + "\n  observed: " + o.String(), Case: c[i : i+1]})
+					}
+				}
 			case "dtx":
 				out = "skip"
 				c05Dtx(f, prop, c[i:i+1], &fails, &tags)
